@@ -127,7 +127,14 @@ def _fn_at(meta, rel, line):
     for (a, b, name) in meta["files"].get(rel, {}).get("fnranges", []):
         if a <= line <= b and (best is None or a >= best[0]):
             best = (a, b, name)
-    return best[2] if best else None
+    name = best[2] if best else None
+    if name and name.split("::")[-1].startswith("twin_"):
+        # free-function twin of a trait / trait-impl method: report under the method's name
+        parts = name.split("::")
+        t = parts[-1][5:]
+        c, _, m = t.partition("_")
+        name = "::".join(parts[:-1] + [c, m])
+    return name
 
 
 def classify(meta, run):
